@@ -101,6 +101,8 @@ occ = z3.Function("occ", Bytes, Bytes, I, Bo)  # p occurs in s at j (whole)
 pm = z3.Function("pm", Bytes, Bytes, I, Bo)  # s[j:] starts with p, or is a proper prefix of p (partial match)
 first = z3.Function("first", Bytes, Bytes, I)  # first occurrence index or -1
 flat = z3.Function("flat", BytesSeq, Bytes)  # concatenation of a sequence of byte strings
+rk = z3.Function("rk", Bytes, I, Bytes, I)  # resynchronisation index: least j >= c with j == |B| or pm(B, p, j)
+Resync = z3.Function("Resync", Bytes, I, Bytes, Bytes)  # what LimitOverrunError keeps as remaining_data
 
 _s, _t, _p = z3.Consts("s_ t_ p_", Bytes)
 _j, _k = z3.Ints("j_ k_")
@@ -190,6 +192,35 @@ AXIOMS: dict[str, z3.ExprRef] = {
         z3.Implies(occ(_s, _p, _j), z3.And(first(_s, _p) >= 0, first(_s, _p) <= _j)),
         patterns=[occ(_s, _p, _j)],
     ),
+    # definitional extension: rk(B,c,p) is the least index j in [c,|B|] with j == |B| or pm(B,p,j)  (exists since
+    # j = |B| qualifies); Resync is defined from it.  Both are only constrained for 0 <= c <= |B|.
+    "rk-def": z3.ForAll(
+        [_s, _j, _p],
+        z3.Implies(
+            z3.And(0 <= _j, _j <= L(_s)),
+            z3.And(
+                _j <= rk(_s, _j, _p),
+                rk(_s, _j, _p) <= L(_s),
+                z3.Or(rk(_s, _j, _p) == L(_s), pm(_s, _p, rk(_s, _j, _p))),
+                z3.ForAll([_k], z3.Implies(z3.And(_j <= _k, _k < rk(_s, _j, _p)), z3.Not(pm(_s, _p, _k))), patterns=[pm(_s, _p, _k)]),
+            ),
+        ),
+        patterns=[rk(_s, _j, _p)],
+    ),
+    "Resync-def": z3.ForAll(
+        [_s, _j, _p],
+        Resync(_s, _j, _p)
+        == z3.If(
+            L(_p) == 0,
+            z3.SubSeq(_s, _j, L(_s) - _j),
+            z3.If(
+                occ(_s, _p, _j),
+                z3.SubSeq(_s, _j + L(_p), L(_s) - _j - L(_p)),
+                z3.SubSeq(_s, rk(_s, _j, _p), L(_s) - rk(_s, _j, _p)),
+            ),
+        ),
+        patterns=[Resync(_s, _j, _p)],
+    ),
     "flat-empty": flat(z3.Empty(BytesSeq)) == EMPTY,
     "flat-unit": z3.ForAll([_s], flat(z3.Unit(_s)) == _s, patterns=[flat(z3.Unit(_s))]),
     "flat-concat": z3.ForAll(
@@ -248,6 +279,12 @@ def axioms_for(formulas) -> list[z3.ExprRef]:
     for f in formulas:
         walk(f)
     out = []
+    if "Resync" in names:
+        out.append(AXIOMS["Resync-def"])
+        names.update(("rk", "occ", "pm"))
+    if "rk" in names:
+        out.append(AXIOMS["rk-def"])
+        names.add("pm")
     if "first" in names:
         out.append(AXIOMS["first-def"])
         out.append(AXIOMS["first-le"])
